@@ -27,7 +27,7 @@ def has_h(body):
     return b'h' in b''.join(v[0] for v in body) or 'h:' in ','.join(R.canon_value(v) for v in body)
 
 
-def check_program(h, m, ctor, arr, hits, out, fops=''):
+def check_program(h, m, ctor, arr, hits, out, fops='', getdel=None):
     """m: the intended message (fields in the order the setters are called)."""
     if m.body and m.field(R.F_SIGNATURE) is None:
         m = m.copy()
@@ -37,9 +37,16 @@ def check_program(h, m, ctor, arr, hits, out, fops=''):
         mb = m.copy()
         mb.flags = 0
         prog = '%s %s %s FOPS=%s' % (ctor, arr, R.canon_msg(mb), fops)
+    elif getdel:
+        # the program sets getdel[1] as well, reads all fields back, then removes that field again; m is the expected result
+        mb = m.copy()
+        mb.fields = list(getdel[2])
+        prog = '%s %s %s GETDEL=%s' % (ctor, arr, R.canon_msg(mb), getdel[0])
     else:
         prog = '%s %s %s' % (ctor, arr, R.canon_msg(m))
     case = {'program': prog, 'expected_flags': m.flags}
+    if getdel:
+        case['expected'] = R.canon_msg(m)
     try:
         r = h.cmd('BUILD ' + prog)
     except HarnessDied as e:
@@ -124,7 +131,7 @@ def task_batch(items):
     for it in items:
         ctor, arr, mt = it[:3]
         m = R.Msg(*mt)
-        check_program(h, m, ctor, arr, hits, out, it[3] if len(it) > 3 else '')
+        check_program(h, m, ctor, arr, hits, out, it[3] if len(it) > 3 and isinstance(it[3], str) else '', it[3] if len(it) > 3 and not isinstance(it[3], str) else None)
     byfp = {}
     for v in out:
         byfp.setdefault(v.fingerprint, []).append(v)
@@ -185,6 +192,21 @@ def programs(tier):
                 yield ('g', 'i', (mt, final(0, seq), 11, list(base[mt]), []), ''.join(seq))
             yield ('s', 'i', (R.MT_SIGNAL, final(1, seq), 11, list(base[R.MT_SIGNAL]), []), ''.join(seq))
             yield ('s', 'i', (R.MT_CALL, final(0, seq), 11, list(base[R.MT_CALL]), []), ''.join(seq))
+    # set, read back, delete: every optional field of a full header is removed after all getters have run, then a body is appended
+    delname = {R.F_PATH: 'path', R.F_INTERFACE: 'iface', R.F_MEMBER: 'member', R.F_ERROR_NAME: 'errname', R.F_DESTINATION: 'dest', R.F_SENDER: 'sender', R.F_CONTAINER_INSTANCE: 'cinst'}
+    for mt in (R.MT_CALL, R.MT_RETURN, R.MT_ERROR, R.MT_SIGNAL):
+        mandatory = {R.MT_CALL: (R.F_PATH, R.F_MEMBER), R.MT_SIGNAL: (R.F_PATH, R.F_INTERFACE, R.F_MEMBER), R.MT_ERROR: (R.F_ERROR_NAME, R.F_REPLY_SERIAL), R.MT_RETURN: (R.F_REPLY_SERIAL,)}[mt]
+        for k in (len(order), len(order) - 1, len(order) - 2):
+            for sub in itertools.combinations(order, k):
+                if any(f not in sub for f in mandatory):
+                    continue
+                full = [(c, vals[c]) for c in sub]
+                for dele in sub:
+                    if dele in mandatory or dele not in delname:
+                        continue
+                    remaining = [(c, v) for c, v in full if c != dele]
+                    for body in ([], [(b's', b'x')], [(b'u', 7), (b's', b'yz')]):
+                        yield ('g', 'i', (mt, 0, 0x01020304, remaining, body), (delname[dele], dele, full))
     # long values: strings crossing 8-byte residues in every field
     for n in range(1, 18):
         fields = [(R.F_PATH, (b'o', b'/' + b'p' * n)), (R.F_INTERFACE, (b's', b'i.' + b'f' * n)), (R.F_MEMBER, (b's', b'm' * n)),
@@ -251,6 +273,13 @@ def replay(case):
     fops = ''
     if ' FOPS=' in canon:
         canon, fops = canon.rsplit(' FOPS=', 1)
+    if ' GETDEL=' in canon:
+        canon, gd = canon.rsplit(' GETDEL=', 1)
+        with Harness('vbox') as h:
+            full = msg_from_canon(canon)
+            m = msg_from_canon(case['expected'])
+            check_program(h, m, ctor, arr, hits, out, '', (gd, None, full.fields))
+        return out
     with Harness('vbox') as h:
         # re-run BUILD + all clauses from the canonical text
         m = msg_from_canon(canon)
